@@ -97,7 +97,10 @@ def run(prog: Program, rep: Report, tier: str) -> None:
     want_range = ("app", "builtins.range", c(0), area_len, c(RECORD_NIBBLES))
     # the same chunks cut from the hex digits as a byte string (a reader over hexlify(reply)[90:-8] without .decode())
     want_chunks_b = ("chunks", T.seq("b", want_chunks[1][2]), RECORD_NIBBLES)
-    rep.check(chunk_terms in ({want_chunks}, {want_range}, {want_chunks_b}), "R10.1", "record area and size", where,
+    if not chunk_terms:
+        rep.undecided("R10.1", "record area and size", where, "no iteration over the records was found on any path (the loop is not where this rule looks, or the analysis did not reach it)")
+    else:
+      rep.check(chunk_terms in ({want_chunks}, {want_range}, {want_chunks_b}), "R10.1", "record area and size", where,
               f"records are iterated as {[T.show(x)[:120] for x in chunk_terms]}; expected 32-nibble chunks of hexlify(reply)[90:-8] (16-byte records from byte 45, 4-byte trailer)", key="R10.1|slicing")
     empties = [o for o in rets if any(isinstance(g, tuple) and g[0] == "itercount" and g[2] == 0 for g in o.state.pc)]
     ok_empty = len(empties) == 1 and empties[0].value[0] == "obj" and empties[0].state.heap[empties[0].value[1]].kind == "set" and not empties[0].state.heap[empties[0].value[1]].items and len(empties[0].state.pc) == 1
